@@ -284,6 +284,10 @@ impl<K: SimK, V: SimV, const N: usize, const M: usize> World<K, V, N, M> {
                 violate("wrong-yield", format!("{name}: stepping or letting go of the iterator panicked ({msg})"));
             }
         }
+        // a transfer that overflowed the receiving set: the rejected key is destroyed exactly once
+        if matches!(op, Op::Transfer { .. }) && matches!(ended, Ended::Raised(_)) {
+            self.rejected_accounting(&name);
+        }
         // formatting and serialising never change the container
         if let Op::Fmt { t, set, .. } = op {
             let (a, b) = if *set { (pre.set(*t), post.set(*t)) } else { (pre.map(*t), post.map(*t)) };
